@@ -405,11 +405,94 @@ func c05Scope(f polyFamily, cfgs []offCfg, level int) *drv.Scope {
 		}}
 }
 
+// c05LargeDeltaScope: simple quadrilaterals of P(3,4) (convex, concave and arrow shapes) scaled by 200 with deltas of
+// +-1500 and round joins at explicit arc tolerances far below the default 0.002*|delta| = 3: the regime in which an
+// arc tolerance matters at all. A pitch-1 lattice over a 10^4 x 10^4 box is out of reach, so the witnesses are
+// targeted: 1440 directions on two circles around every input vertex (radius |delta| - tol - 0.5, where the
+// statement demands 'inside' for growing / 'outside' for shrinking because the vertex itself is on the boundary,
+// and radius |delta| + tol + 0.5, decided by the exact distance to the input region).
+func c05LargeDeltaScope() *drv.Scope {
+	f := famSimple(enum.Eax20, 3, 4)
+	const K = 200
+	type cf struct{ d, arc float64 }
+	cfgs := []cf{{1500, 0.25}, {-1500, 0.25}, {1500, 1}, {-1500, 1}}
+	return &drv.Scope{Name: "offset/large delta +-1500, round joins, arc tolerance 0.25 and 1/" + f.name + " scaled by 200", Level: 3, Size: f.size,
+		Show: func(idx uint64) any {
+			gs, ok := f.gen(idx)
+			if !ok {
+				return "not simple (skipped)"
+			}
+			return map[string]any{"base polygon (scaled by 200)": pathsLit(gs[0]), "configs": "delta +-1500 x arc tolerance {0.25, 1}, Round joins"}
+		},
+		Run: func(c *drv.Ctx, idx uint64) {
+			gs, ok := f.gen(idx)
+			if !ok {
+				return
+			}
+			in := Paths{make(Path, len(gs[0][0]))}
+			for i, q := range gs[0][0] {
+				in[0][i] = Pt{X: q.X * K, Y: q.Y * K}
+			}
+			for _, cfg := range cfgs {
+				out := clipper.InflatePaths64(in, cfg.d, clipper.Round, clipper.Polygon, clipper.WithArcTolerance(cfg.arc))
+				c.Exec(1)
+				c.Output(enum.HashPaths(out))
+				tag := fmt.Sprintf("delta=%v join=Round arc=%v", cfg.d, cfg.arc)
+				if sd := structuralDefect(out); sd != "" {
+					c.Fail("degenerate-path", tag, "%s: %s; input %v", tag, sd, in)
+					continue
+				}
+				ad, tol := math.Abs(cfg.d), 2+cfg.arc
+				bad := false
+				for _, v := range in[0] {
+					for _, r := range []float64{ad - tol - 0.5, ad + tol + 0.5} {
+						for k := 0; k < 1440 && !bad; k++ {
+							a := 2 * math.Pi * (float64(k) + 0.37) / 1440
+							px, py := float64(v.X)+r*math.Cos(a), float64(v.Y)+r*math.Sin(a)
+							wi, oni := windFloat(in, px, py)
+							wo, ono := windFloat(out, px, py)
+							if oni || ono {
+								continue
+							}
+							inR, got := wi != 0, wo != 0
+							dist := distToEdges(px, py, in, true)
+							var want, decided bool
+							if cfg.d > 0 {
+								switch {
+								case inR:
+									want, decided = true, dist > 2
+								case dist <= ad-tol-1e-6:
+									want, decided = true, true
+								case dist > ad+tol+1e-6:
+									want, decided = false, true
+								}
+							} else {
+								switch {
+								case !inR:
+									want, decided = false, dist > 2
+								case dist <= ad-tol-1e-6:
+									want, decided = false, true
+								case dist > ad+tol+1e-6:
+									want, decided = true, true
+								}
+							}
+							if decided && want != got {
+								c.Fail("region", tag, "%s: point (%.3f,%.3f) on the circle of radius %.3f around input vertex %v: inside input region=%v, distance to the input boundary %.3f; must be inside the result=%v, is inside=%v (tolerance %.3f); input %v", tag, px, py, r, v, inR, dist, want, got, tol, in)
+								bad = true
+							}
+						}
+					}
+				}
+			}
+			c.Nontriv()
+		}}
+}
+
 func init() {
 	drv.Register(&drv.Check{
 		ID:    "C05",
 		Title: "Polygon offsetting grows/shrinks the region by delta",
-		Rule: "every simple polygon (exact simplicity test; both orientations) of P(4,3..4[,5]) under stride-20 axis-aligned and sheared embeddings, frame+hole sets (hole from P(3,3..4), both global orientations) and two-group sets, x delta in {+-0.3, +-0.49, +-0.5, +-1, +-2.5, +-7, +-12, +-35} x {Miter x limit 1,2,5; Square; Bevel; Round x arc tolerance 0,.25,2} through InflatePaths64 / ClipperOffset; " +
+		Rule: "every simple polygon (exact simplicity test; both orientations) of P(4,3..4[,5]) under stride-20 axis-aligned and sheared embeddings, frame+hole sets (hole from P(3,3..4), both global orientations) and two-group sets, x delta in {+-0.3, +-0.49, +-0.5, +-1, +-2.5, +-7, +-12, +-35} x {Miter x limit 1,2,5; Square; Bevel; Round x arc tolerance 0,.25,2} through InflatePaths64 / ClipperOffset; plus every simple quadrilateral of P(3,4) scaled by 200 with delta +-1500, round joins and arc tolerances 0.25 and 1 (far below the default 0.002|delta|), judged on 2 x 1440 probes per input vertex (circles of radius |delta| -+ (tol + 0.5)); " +
 			"oracle on a witness lattice over bbox + k|delta| + 5 with exact winding of input and result and float64 distances (1e-6 guard): delta>0: inside R and > 2 from its boundary => inside; outside and dist > k*delta+tol => outside; Round: dist <= delta-tol => inside, > delta+tol => outside; points q+s*n on edge normals with s <= delta-tol (no other edge nearer) => inside; delta<0: the mirror statements for the complement; |delta|<0.5: input with repeats removed, exactly; result canonical (>=3 vertices, no repeats, winding in {0,1}). k = 1 (Round, Bevel), sqrt2 (Square), max(miterLimit, sqrt2) (Miter); tol = 2 (+ arc tolerance for Round). non-trivial = polygon set with a non-empty result for some |delta| >= 0.5",
 		Assumptions:      []string{"<= 5 vertices per polygon; float64 distance comparisons with 1e-6 guard on coordinates < 2^12; witness pitch 1 (2 for |delta| > 10)"},
 		RequiredCounters: []string{"simple_polygon_sets", "over_shrunk_to_nothing"},
@@ -419,13 +502,13 @@ func init() {
 			if tier == "quick" {
 				q := c05Configs([]float64{0.3, -0.49, 0.5, -1, 2.5, -7, 12, -35})
 				out = append(out, c05Scope(famSimple(enum.Eax20, 4, 3), cfgs, 1), c05Scope(famSimple(enum.Esh20, 4, 3), q, 1), c05Scope(famSimple(enum.Eax20, 4, 4), q, 2),
-					c05Scope(famHole(enum.Eax20, 3), q, 3), c05Scope(famTwoGroups(enum.Eax20, 17), c05Configs([]float64{2.5, -2.5, 12}), 3))
+					c05Scope(famHole(enum.Eax20, 3), q, 3), c05Scope(famTwoGroups(enum.Eax20, 17), c05Configs([]float64{2.5, -2.5, 12}), 3), c05LargeDeltaScope())
 				return out
 			}
 			for _, e := range []enum.Embed{enum.Eax20, enum.Esh20} {
 				out = append(out, c05Scope(famSimple(e, 4, 3), cfgs, 1), c05Scope(famSimple(e, 4, 4), cfgs, 2), c05Scope(famHole(e, 3), cfgs, 3), c05Scope(famHole(e, 4), cfgs, 3))
 			}
-			out = append(out, c05Scope(famTwoGroups(enum.Eax20, 1), c05Configs([]float64{0.3, 2.5, -2.5, 12, -12}), 3), c05Scope(famSimple(enum.Eax20, 4, 5), cfgs, 4), c05Scope(famSimple(enum.Esh20, 4, 5), c05Configs([]float64{1, -1, 7, -7, 35}), 4))
+			out = append(out, c05Scope(famTwoGroups(enum.Eax20, 1), c05Configs([]float64{0.3, 2.5, -2.5, 12, -12}), 3), c05Scope(famSimple(enum.Eax20, 4, 5), cfgs, 4), c05Scope(famSimple(enum.Esh20, 4, 5), c05Configs([]float64{1, -1, 7, -7, 35}), 4), c05LargeDeltaScope())
 			return out
 		},
 	})
